@@ -26,6 +26,7 @@ def check(prog, rep):
 
 SQ = "aw_datastore/storages/sqlite.py"
 VARIANTS = [
+    ("B commit() swallows a failed flush and stamps anyway", SQ, "        self.conn.commit()\n        self.last_commit = datetime.now()", "        try:\n            self.conn.commit()\n        except sqlite3.OperationalError as e:\n            logger.warning(f\"Commit failed: {e}\")\n        self.last_commit = datetime.now()", "AGE-STAMP"),
     ("B operands reversed (original defect)", SQ, "if (datetime.now() - self.last_commit) > timedelta(seconds=10):", "if (self.last_commit - datetime.now()) > timedelta(seconds=10):", "AGE"),
     ("B age test nested under the count test", SQ, "            if self.num_uncommitted_statements > 50:\n                self.commit()\n            if (datetime.now() - self.last_commit) > timedelta(seconds=10):\n                self.commit()", "            if self.num_uncommitted_statements > 50:\n                if (datetime.now() - self.last_commit) > timedelta(seconds=10):\n                    self.commit()", "AGE"),
     ("B threshold 1000 s", SQ, "> timedelta(seconds=10):", "> timedelta(seconds=1000):", "AGE"),
